@@ -39,3 +39,6 @@ mk C09 string-eof       "R-TERM/T-loop"   internal/bcl/internal/parser/lexer.go 
 mk C11 recover-no-pop   "R-TERM/T-loop"   internal/bcl/internal/parser/parser.go '/^func (ww \*Walker) recoverError/,/^}/{/^\t\tww.popToken()$/d}'
 mk C06 typename-self    "R-TERM/T-rec"    lib/j5schema/field_schema.go 's/return fmt.Sprintf("array(%s)", s.Schema.TypeName())/return fmt.Sprintf("array(%s)", s.TypeName())/'
 ls mutants/*/hand-* | wc -l
+mk C06 no-depth-guard   "R-TERM/T-depth"  internal/codec/decoder.go '/^func (dec \*decoder) jsonObjectBody/,/^}/{/if dec.depth >= maxDecodeDepth {/,/}/d}'
+mk C07 no-block-depth   "R-TERM/T-nest"   internal/bcl/internal/parser/parser.go '/^\t\t\tif depth > maxBlockDepth {/,/^\t\t\t}/d'
+mk C03 any-any-key      "R-ERR/E4"        internal/codec/decoder.go '/^\t\tif keyTokenStr != "value" {/,/^\t\t}/d'
